@@ -453,17 +453,25 @@ Definition rs_model (M : module) : module := iter_n 5 rs_pass M.
 
 (* ---------------------------------------------------------------------------------------------- *)
 (* object_oriented.move_staticmethod_static_scope (after the repairs), preserve = {} *)
-Definition recognised_in (cf : list (name * name)) (ctx : option name) (r : recv) (m : name) : bool :=
+(* classes whose creation does something: a base class, or an __init__ of their own *)
+Definition ctor_classes (M : module) : list name :=
+  flat_map (fun k => match c_base k with
+                     | Some _ => [c_name k]
+                     | None => if nmem INIT (map m_name (c_meths k)) then [c_name k] else []
+                     end) (classes M).
+Definition recognised_in (cf : list (name * name)) (ct : list name) (ctx : option name) (r : recv) (m : name) : bool :=
   match r with
-  | RCls c | RNew c => pair_mem (c, m) cf
+  | RCls c => pair_mem (c, m) cf
+  | RNew c => pair_mem (c, m) cf && negb (nmem c ct)
   | RSelf => match ctx with Some k => pair_mem (k, m) cf | None => false end
   | _ => false
   end.
-Definition recognised (M : module) := recognised_in (cfn M).
+Definition recognised (M : module) := recognised_in (cfn M) (ctor_classes M).
 Definition attrs_to_preserve (M : module) : list name :=
   let cf := cfn M in
+  let ct := ctor_classes M in
   flat_map (fun ca => match attr_of (snd ca) with
-                      | Some (r, m) => if recognised_in cf (fst ca) r m then [] else [m]
+                      | Some (r, m) => if recognised_in cf ct (fst ca) r m then [] else [m]
                       | None => [] end) (ctx_acts M).
 (* the classes strictly above d in its chain *)
 Definition ancestors (M : module) (d : cls) : list name :=
@@ -773,3 +781,65 @@ Definition all_meth_names (M : module) : list name :=
   flat_map (fun k => map m_name (c_meths k)) (classes M).
 Definition wf_mod (M : module) : bool :=
   forallb (fun k => forallb (fun a => negb (nmem (fst a) (all_meth_names M))) (c_alias k)) (classes M).
+
+(* ---- plumbing for Part U: CPython's run of the printed program ---- *)
+Fixpoint uval_eqb (a b : uval) : bool :=
+  match a, b with
+  | UInt x, UInt y => Nat.eqb x y
+  | URes k v, URes j w => Nat.eqb k j && uval_eqb v w
+  | UHook l, UHook m => list_eqb Nat.eqb l m
+  | _, _ => false
+  end.
+Definition ns_eqb (a b : ns) : bool :=
+  list_eqb (fun p q => Nat.eqb (fst p) (fst q) && uval_eqb (snd p) (snd q)) a b.
+Definition u_sem_case_ok (c : uprog * bool * list uval * ns) : bool :=
+  let '(p, ok, tr, N) := c in
+  match urun p with (ok', tr', N') => Bool.eqb ok ok' && list_eqb uval_eqb tr tr' && ns_eqb N N' end.
+
+(* ============================================================================================== *)
+(* Part D : fixes.remove_duplicate_functions / abstractions.hash_node                               *)
+(* ============================================================================================== *)
+(* hash_node hashes the breadth-first walk of a tree: per node its type and plain fields (TK), and for
+   Name / arg / FunctionDef nodes the name (TN; b = the occurrence binds the name: parameter, store,
+   nested definition).  A name is hashed literally when it is preserved, otherwise as the number of
+   first occurrences of names seen so far.  remove_duplicate_functions (after repair 3c7e4a0) preserves
+   the names that the function does not bind itself. *)
+Inductive tok := TK (k : nat) | TN (x : name) (b : bool).
+Inductive ctok := CK (k : nat) | CKeep (x : name) | CIdx (i : nat).
+Fixpoint index_of (x : name) (l : list name) : option nat :=
+  match l with
+  | [] => None
+  | y :: tl => if Nat.eqb x y then Some 0 else option_map S (index_of x tl)
+  end.
+Fixpoint canon_go (keep seen : list name) (l : list tok) : list ctok :=
+  match l with
+  | [] => []
+  | TK k :: tl => CK k :: canon_go keep seen tl
+  | TN x _ :: tl =>
+      if nmem x keep then CKeep x :: canon_go keep seen tl
+      else match index_of x seen with
+           | Some i => CIdx i :: canon_go keep seen tl
+           | None => CIdx (length seen) :: canon_go keep (seen ++ [x]) tl
+           end
+  end.
+Definition tok_names (l : list tok) : list name :=
+  flat_map (fun t => match t with TN x _ => [x] | _ => [] end) l.
+Definition bound_names (l : list tok) : list name :=
+  flat_map (fun t => match t with TN x true => [x] | _ => [] end) l.
+(* fixes._names_bound_elsewhere *)
+Definition free_names (l : list tok) : list name :=
+  filter (fun x => negb (nmem x (bound_names l))) (tok_names l).
+Definition canon (preserve : list name) (l : list tok) : list ctok :=
+  canon_go (preserve ++ free_names l) [] l.
+Definition ctok_eqb (a b : ctok) : bool :=
+  match a, b with
+  | CK x, CK y | CKeep x, CKeep y | CIdx x, CIdx y => Nat.eqb x y
+  | _, _ => false
+  end.
+Definition dup_eqb (preserve : list name) (f g : list tok) : bool :=
+  list_eqb ctok_eqb (canon preserve f) (canon preserve g).
+(* the code before the repair: every name outside the preserve set is abstracted *)
+Definition dup_eqb_old (preserve : list name) (f g : list tok) : bool :=
+  list_eqb ctok_eqb (canon_go preserve [] f) (canon_go preserve [] g).
+Definition d_case_ok (c : list tok * list tok * bool) : bool :=
+  let '(f, g, merged) := c in Bool.eqb (dup_eqb [] f g) merged.
